@@ -17,7 +17,8 @@ Record ccase := CC {
   k_kill : bool;             (* run 1 ended by SIGKILL (false: graceful stop) *)
   k_exact : bool;            (* the kill was fired from a hook point, so the event log is complete *)
   k_missing : N;             (* acknowledged captures of seeds deleted in run 1 that are not among the complete records on disk *)
-  k_midfile : N              (* WARC files with a defect that is not a truncated tail *)
+  k_midfile : N;             (* WARC files with a defect that is not a truncated tail *)
+  k_badfinish : N            (* seeds reported finished (either run) while a node of their tree still awaited fetching or post-processing *)
 }.
 
 Definition subset (a b : list N) : bool := forallb (fun x => mem x b) a.
@@ -59,5 +60,9 @@ Definition mon_refetched_preprocessed (c : ccase) : bool :=
 (* m4: the WARC files are readable record by record up to the last complete record *)
 Definition mon_readable (c : ccase) : bool := k_midfile c =? 0.
 
+(* m5: a row is deleted only for a seed whose whole tree is done - also when the finish falls into a graceful stop
+   (a frozen reactor rejects the feedback: the seed must then stay unfinished, its row is reset and crawled again) *)
+Definition mon_finish_done (c : ccase) : bool := k_badfinish c =? 0.
+
 Definition mons (l : list ccase) :=
-  mon_idx [mon_no_stranded; mon_captured; mon_refetched; mon_refetched_preprocessed; mon_readable] l.
+  mon_idx [mon_no_stranded; mon_captured; mon_refetched; mon_refetched_preprocessed; mon_readable; mon_finish_done] l.
